@@ -335,9 +335,9 @@ func c11Jobs(tier string) []*SeqJob {
 	j.Run = func(ctx *SeqCtx) {
 		for _, tagged := range []bool{true, false} {
 			c11RootTagged = tagged
+			ctx.OpsPrefix = []string{fmt.Sprint("root-tagged=", tagged)}
 			bfs(ctx, alphabet, depth, c11Exec(alphabet))
 			if ctx.viol != nil {
-				ctx.viol.Ops = append([]string{fmt.Sprint("root-tagged=", tagged)}, ctx.viol.Ops...)
 				break
 			}
 			ctx.seen = map[string]struct{}{}
